@@ -1,5 +1,5 @@
 (** Single entry point of the extracted model: request -> answer. *)
-From Physt Require Import Sx Merge Calc1D CalcND Fill ArithCases ScaleCases Project.
+From Physt Require Import Sx Merge Calc1D CalcND Fill ArithCases ScaleCases Project Index.
 
 Definition run (req : sx) : sx :=
   match req with
@@ -11,6 +11,7 @@ Definition run (req : sx) : sx :=
   | LL [SS "C05"; c; o] => judge_C05 c o
   | LL [SS "C06"; c; o] => judge_C06 c o
   | LL [SS "C09"; c; o] => judge_C09 c o
+  | LL [SS "C11"; c; o] => judge_C11 c o
   | LL [SS "C10"; c; o] => judge_C10 c o
   | LL [SS "sumq"; l] => match d_list d_q l with Some qs => QQ (sumq qs) | None => illformed end
   | _ => SS "unknown-request"
